@@ -515,6 +515,10 @@ var builders = []builder{
 	}},
 	{"gen/v2_chunked_deep", buildDeepTree},
 	{"gen/compact_only", buildCompactOnly},
+	{"gen/fanin_v0_d6", buildFanIn(core.Version0, 6)}, {"gen/fanin_v0_d12", buildFanIn(core.Version0, 12)},
+	{"gen/fanin_v0_d18", buildFanIn(core.Version0, 18)}, {"gen/fanin_v0_d24", buildFanIn(core.Version0, 24)},
+	{"gen/fanin_v2_d6", buildFanIn(core.Version2, 6)}, {"gen/fanin_v2_d12", buildFanIn(core.Version2, 12)},
+	{"gen/fanin_v2_d18", buildFanIn(core.Version2, 18)}, {"gen/fanin_v2_d24", buildFanIn(core.Version2, 24)},
 	{"gen/v2_rank3", func(path string) error { // rank-3 datasets: contiguous (row-by-row hyperslab reader) and chunked
 		fw, err := hdf5.CreateForWrite(path, hdf5.CreateTruncate)
 		if err != nil {
@@ -548,6 +552,31 @@ var builders = []builder{
 		}
 		return fw.Close()
 	}},
+}
+
+// buildFanIn writes a chain of groups in which every group has two hard links, "a" and "b", to the next one: a DAG with
+// fan-in. The file grows linearly with the depth while the number of paths doubles per level; a reader that expands a group
+// once per path instead of once per group needs time and memory exponential in the file size.
+func buildFanIn(ver uint8, depth int) func(string) error {
+	return func(path string) error {
+		fw, err := hdf5.CreateForWrite(path, hdf5.CreateTruncate, hdf5.WithSuperblockVersion(ver))
+		if err != nil {
+			return err
+		}
+		cur := ""
+		for i := 0; i < depth; i++ {
+			if _, err := fw.CreateGroup(cur + "/a"); err != nil {
+				_ = fw.Close()
+				return fmt.Errorf("fan-in depth %d: %w", i, err)
+			}
+			if err := fw.CreateHardLink(cur+"/b", cur+"/a"); err != nil {
+				_ = fw.Close()
+				return fmt.Errorf("fan-in depth %d: %w", i, err)
+			}
+			cur += "/a"
+		}
+		return fw.Close()
+	}
 }
 
 // buildCompactOnly derives a small-to-read image with a COMPACT-layout dataset (the library cannot write that layout):
